@@ -69,6 +69,12 @@ type stats struct {
 }
 
 type checker struct {
+	// noDiagRanges: do not judge the ranges of the diagnostics being checked (set while
+	// templates inside JSON strings are evaluated and the JSON text has escapes or invalid
+	// UTF-8: json/structure.go documents those positions as approximate)
+	noDiagRanges bool
+	jsonApprox   bool
+
 	src      []byte
 	entry    int
 	findings []finding
@@ -115,18 +121,38 @@ func (k *checker) inInput(r hcl.Range) bool {
 	return 0 <= r.Start.Byte && r.Start.Byte <= r.End.Byte && r.End.Byte <= len(k.src)
 }
 
+func (k *checker) status() string {
+	if k.st.errFree {
+		return "error-free"
+	}
+	return "with-errors"
+}
+
+// syntax names the grammar whose tree-building code produced the node: the three native
+// entry points share it, so one defect there has one signature.
+func (k *checker) syntax() string {
+	if k.entry == eJSON {
+		return "json"
+	}
+	return "native"
+}
+
+func (k *checker) rangeFinding(r hcl.Range, owner, field string) {
+	kind := "outside-input"
+	if r.End.Byte < r.Start.Byte {
+		kind = "inverted"
+	}
+	k.report(fmt.Sprintf("range:%s:%s.%s:%s", kind, owner, field, k.status()),
+		fmt.Sprintf("%s: range %s of %s %s is %s (input has %d bytes)", entryNames[k.entry], field, owner, rstr(r), kind, len(k.src)),
+		map[string]any{"range": rstr(r), "len": len(k.src), "diagnostics": k.status()})
+}
+
 func (k *checker) checkRange(r hcl.Range, owner, field string) bool {
 	k.st.ranges++
 	if k.inInput(r) {
 		return true
 	}
-	kind := "outside-input"
-	if r.End.Byte < r.Start.Byte {
-		kind = "inverted"
-	}
-	k.report(fmt.Sprintf("range:%s:%s.%s@%s", kind, owner, field, entryNames[k.entry]),
-		fmt.Sprintf("%s: range %s of %s %s is %s (input has %d bytes)", entryNames[k.entry], field, owner, rstr(r), kind, len(k.src)),
-		map[string]any{"range": rstr(r), "len": len(k.src)})
+	k.rangeFinding(r, owner, field)
 	return false
 }
 
@@ -137,12 +163,20 @@ func (k *checker) checkDiags(diags hcl.Diagnostics, phase string) {
 			continue
 		}
 		k.st.diags++
-		name := phase + "-diagnostic(" + lib.Classify(d.Summary) + ")"
+		if k.noDiagRanges {
+			continue
+		}
 		if d.Subject != nil {
-			k.checkRange(*d.Subject, name, "Subject")
+			k.st.ranges++
+			if !k.inInput(*d.Subject) {
+				k.rangeFinding(*d.Subject, phase+"-diagnostic("+lib.Classify(d.Summary)+")", "Subject")
+			}
 		}
 		if d.Context != nil {
-			k.checkRange(*d.Context, name, "Context")
+			k.st.ranges++
+			if !k.inInput(*d.Context) {
+				k.rangeFinding(*d.Context, phase+"-diagnostic("+lib.Classify(d.Summary)+")", "Context")
+			}
 		}
 	}
 }
@@ -159,10 +193,14 @@ var utf8BOM = []byte{0xef, 0xbb, 0xbf}
 // last token EOF at len(input).
 func (k *checker) checkTokens(toks hclsyntax.Tokens) {
 	en := entryNames[k.entry]
+	mode := "normal-mode"
+	if k.entry == eLexTemplate {
+		mode = "template-mode"
+	}
 	src := k.src
 	k.st.tokens += len(toks)
 	if len(toks) == 0 {
-		k.report("token:none@"+en, en+": returned no tokens at all (not even EOF)", nil)
+		k.report("token:none:"+mode, en+": returned no tokens at all (not even EOF)", nil)
 		return
 	}
 	prevEnd := 0
@@ -173,27 +211,27 @@ func (k *checker) checkTokens(toks hclsyntax.Tokens) {
 		s, e := t.Range.Start.Byte, t.Range.End.Byte
 		tn := t.Type.String()
 		if !(0 <= s && s <= e && e <= len(src)) {
-			k.report("token:range-outside-input:"+tn+"@"+en,
+			k.report("token:range-outside-input:"+tn+":"+mode,
 				fmt.Sprintf("%s: token %d (%s) has range %s, input has %d bytes", en, i, tn, rstr(t.Range), len(src)),
 				map[string]any{"token_index": i, "range": rstr(t.Range)})
 			return
 		}
 		if s < prevEnd {
-			k.report("token:overlap-or-disorder:"+tn+"@"+en,
+			k.report("token:overlap-or-disorder:"+tn+":"+mode,
 				fmt.Sprintf("%s: token %d (%s) starts at %d, before the end %d of what precedes it", en, i, tn, s, prevEnd),
 				map[string]any{"token_index": i, "range": rstr(t.Range), "prev_end": prevEnd})
 			return
 		}
 		for j := prevEnd; j < s; j++ {
 			if !isBlank(src[j]) {
-				k.report("token:gap-not-blank:before-"+tn+"@"+en,
+				k.report("token:gap-not-blank:before-"+tn+":"+mode,
 					fmt.Sprintf("%s: input byte %d (0x%02x) is covered by no token: gap [%d,%d) before token %d (%s)", en, j, src[j], prevEnd, s, i, tn),
 					map[string]any{"token_index": i, "gap": fmt.Sprintf("[%d,%d)", prevEnd, s), "byte": src[j]})
 				return
 			}
 		}
 		if !bytes.Equal(t.Bytes, src[s:e]) {
-			k.report("token:bytes-differ:"+tn+"@"+en,
+			k.report("token:bytes-differ:"+tn+":"+mode,
 				fmt.Sprintf("%s: token %d (%s) range %s carries %q, the input there is %q", en, i, tn, rstr(t.Range), clip(t.Bytes), clip(src[s:e])),
 				map[string]any{"token_index": i, "range": rstr(t.Range), "token_bytes_hex": fmt.Sprintf("%x", clip(t.Bytes))})
 			return
@@ -205,9 +243,9 @@ func (k *checker) checkTokens(toks hclsyntax.Tokens) {
 	}
 	last := toks[len(toks)-1]
 	if last.Type != hclsyntax.TokenEOF {
-		k.report("token:last-not-eof@"+en, fmt.Sprintf("%s: last token is %s, not EOF", en, last.Type), nil)
+		k.report("token:last-not-eof:"+mode, fmt.Sprintf("%s: last token is %s, not EOF", en, last.Type), nil)
 	} else if last.Range.Start.Byte != len(src) {
-		k.report("token:eof-not-at-end@"+en, fmt.Sprintf("%s: EOF token at %s, input has %d bytes", en, rstr(last.Range), len(src)), nil)
+		k.report("token:eof-not-at-end:"+mode, fmt.Sprintf("%s: EOF token at %s, input has %d bytes", en, rstr(last.Range), len(src)), nil)
 	}
 }
 
@@ -282,11 +320,17 @@ func isNilNode(n hclsyntax.Node) bool {
 }
 
 type frame struct {
-	r    hcl.Range
-	name string
-	real bool // false for the grouping nodes Attributes / Blocks, whose Range() is documented as arbitrary
+	r          hcl.Range
+	name       string
+	group      bool // the grouping nodes Attributes / Blocks, whose Range() is documented as arbitrary
+	broken     bool // own range not inside the input / inverted
+	descBroken bool // some descendant's range is broken (this node's range is usually computed from it)
 }
 
+// walker checks every node's ranges. To keep one defect at one signature, a range that is
+// broken is blamed on the deepest node that has it: ancestors of a broken node are not
+// reported for their own (derived) range, and descendants of a broken node are not compared
+// with it or with anything above it.
 type walker struct {
 	k     *checker
 	stack []frame
@@ -300,37 +344,52 @@ func (w *walker) Enter(n hclsyntax.Node) hcl.Diagnostics {
 	}
 	switch n.(type) {
 	case hclsyntax.Attributes, hclsyntax.Blocks:
-		w.stack = append(w.stack, frame{real: false})
+		w.stack = append(w.stack, frame{group: true})
 		return nil
 	}
 	name := nodeTypeName(n)
 	if isNilNode(n) {
 		// a nil child would make Walk itself dereference nil; report what we can
-		k.report("tree:nil-node:"+name+"@"+entryNames[k.entry], entryNames[k.entry]+": the tree contains a nil "+name+" node", nil)
-		w.stack = append(w.stack, frame{real: false})
+		k.report("tree:nil-node:"+name+":"+k.status(), entryNames[k.entry]+": the tree contains a nil "+name+" node", nil)
+		w.stack = append(w.stack, frame{group: true})
 		return nil
 	}
 	r := n.Range()
-	ok := k.checkRange(r, name, "Range()")
-	// nearest real ancestor
+	k.st.ranges++
+	ok := k.inInput(r)
 	if ok {
+		_, anon := n.(*hclsyntax.AnonSymbolExpr)
 		for i := len(w.stack) - 1; i >= 0; i-- {
 			p := w.stack[i]
-			if !p.real {
+			if p.group {
+				continue
+			}
+			if p.broken {
+				break
+			}
+			if anon && p.name != "SplatExpr" {
+				// the anonymous symbol is the enclosing splat's item, referred to from inside
+				// the per-item expression; its range is the splat marker
 				continue
 			}
 			if !(p.r.Start.Byte <= r.Start.Byte && r.End.Byte <= p.r.End.Byte) {
-				k.report(fmt.Sprintf("range:child-outside-parent:%s>%s@%s", p.name, name, entryNames[k.entry]),
+				dir := "ends-after-parent"
+				if r.Start.Byte < p.r.Start.Byte {
+					dir = "starts-before-parent"
+				}
+				k.report(fmt.Sprintf("range:child-outside-parent:%s:%s:%s", p.name, dir, k.status()),
 					fmt.Sprintf("%s: %s node %s is not inside its parent %s %s", entryNames[k.entry], name, rstr(r), p.name, rstr(p.r)),
-					map[string]any{"child": rstr(r), "parent": rstr(p.r)})
+					map[string]any{"child": rstr(r), "child_type": name, "parent": rstr(p.r), "diagnostics": k.status()})
 			}
 			break
 		}
 	}
-	w.stack = append(w.stack, frame{r: r, name: name, real: ok})
+	w.stack = append(w.stack, frame{r: r, name: name, broken: !ok})
 	// every other range the node carries
 	if e, isExpr := n.(hclsyntax.Expression); isExpr {
-		k.checkRange(e.StartRange(), name, "StartRange()")
+		if sr := e.StartRange(); sr != r {
+			k.checkRange(sr, name, "StartRange()")
+		}
 	}
 	v := reflect.ValueOf(n)
 	if v.Kind() == reflect.Ptr {
@@ -341,7 +400,9 @@ func (w *walker) Enter(n hclsyntax.Node) hcl.Diagnostics {
 			fv := v.Field(f.idx)
 			switch f.kind {
 			case 0:
-				k.checkRange(fv.Interface().(hcl.Range), name, f.name)
+				if fr := fv.Interface().(hcl.Range); fr != r {
+					k.checkRange(fr, name, f.name)
+				}
 			case 1:
 				for _, r := range fv.Interface().([]hcl.Range) {
 					k.checkRange(r, name, f.name+"[]")
@@ -349,7 +410,7 @@ func (w *walker) Enter(n hclsyntax.Node) hcl.Diagnostics {
 			case 2:
 				for _, st := range fv.Interface().(hcl.Traversal) {
 					if st == nil {
-						k.report("tree:nil-traverser:"+name+"@"+entryNames[k.entry], entryNames[k.entry]+": nil step in the traversal of a "+name, nil)
+						k.report("tree:nil-traverser:"+name+":"+k.status(), entryNames[k.entry]+": nil step in the traversal of a "+name, nil)
 						continue
 					}
 					k.checkRange(st.SourceRange(), name, f.name+"[].SrcRange")
@@ -361,7 +422,14 @@ func (w *walker) Enter(n hclsyntax.Node) hcl.Diagnostics {
 }
 
 func (w *walker) Exit(n hclsyntax.Node) hcl.Diagnostics {
+	f := w.stack[len(w.stack)-1]
 	w.stack = w.stack[:len(w.stack)-1]
+	if f.broken && !f.descBroken {
+		w.k.rangeFinding(f.r, f.name, "Range()")
+	}
+	if len(w.stack) > 0 && (f.broken || f.descBroken) {
+		w.stack[len(w.stack)-1].descBroken = true
+	}
 	return nil
 }
 
@@ -378,7 +446,7 @@ func (k *checker) walkTree(root hclsyntax.Node) {
 func (k *checker) checkTraversal(tr hcl.Traversal) {
 	for i, st := range tr {
 		if st == nil {
-			k.report("tree:nil-traverser:Traversal@"+entryNames[k.entry], entryNames[k.entry]+": nil step in the returned traversal", nil)
+			k.report("tree:nil-traverser:Traversal:"+k.status(), entryNames[k.entry]+": nil step in the returned traversal", nil)
 			continue
 		}
 		k.st.nodes++
